@@ -25,6 +25,9 @@ func init() {
 		Explanation: "Decides the finite tables of the boolean operations for every input that reaches them: each public wrapper passes the op constant of its name, its own operands and NonZero; SweepPoint.InResult's per-op membership expressions equal the property's truth table over (subject fills, clipping fills) on each side of an edge and an edge is kept iff filling changes; the pathOp switch is exhaustive; bentleyOttmann's four early-outs (Q empty, P empty, disjoint sub-path of P, of Q) keep an operand exactly for the ops whose truth table keeps it. NOT decided: the sweep itself, snap rounding, overlap merging, contour tracing, termination, area laws.",
 		Run: func(c *core.Ctx, r *core.Report) {
 			E9AbsorbedLink(c, r)
+			E9AbsorbConserves(c, r)
+			E9DepthFromResultEdge(c, r)
+			E9SquareRange(c, r)
 			E9HoleParity(c, r)
 			E9WindingsSync(c, r)
 			E9Wrappers(c, r, map[string]bool{"And": true, "Or": true, "Xor": true, "Not": true, "DivideBy": true})
@@ -37,6 +40,9 @@ func init() {
 		Explanation: "Decides: FillRule.Fills is definite on the sign×parity classes of the winding number and equals each rule's definition, with a case for all four rules; the Settle entry points pass nil, opSettle and their own fill rule to the sweep; opSettle membership is the subject's own fill on each side; settling an empty path yields the empty path. NOT decided: canonical form, hole orientation, idempotence, the sweep.",
 		Run: func(c *core.Ctx, r *core.Report) {
 			E9AbsorbedLink(c, r)
+			E9AbsorbConserves(c, r)
+			E9DepthFromResultEdge(c, r)
+			E9SquareRange(c, r)
 			E9HoleParity(c, r)
 			E9WindingsSync(c, r)
 			E9Fills(c, r)
@@ -121,6 +127,7 @@ func init() {
 		Explanation: "Decides, for every sequence of writer calls, the structural clauses of the PDF writer: bytes reach the io.Writer only through write/writeBytes which add the returned count to pos; every 'n 0 obj' emission is immediately preceded by recording pos at index n-1; the reserved catalog/info/page-tree numbers agree with trailer Root/Info, catalog Pages and every page's Parent, and xref count == trailer Size; a stream's Length is len() of exactly the slice written between stream/endstream; the six metadata fields are stored under the key of the same name from the field of the same name; every font map in which getFont reserves a reference is written in Close with the matching vertical flag; no module type implementing an interface map key is non-comparable (or it is unwrapped before every use); the content-stream fragments form only PDF operators with balanced q/Q, BT/ET and terminated strings (abstract interpretation with inlining); every resource name given to gs/scn/SCN/Tf/Do is registered in the page's resources under the category the operator uses. NOT decided: byte-exact offsets of concrete documents, filter decodability, font program validity, the page count arithmetic.",
 		Assumptions: []string{"fmt.Fprintf writes exactly the formatted bytes and returns their count", "path data produced by Path.ToPDF is treated as an opaque, well-delimited operand sequence (its own operator arities are checked under C11/C12)"},
 		Run: func(c *core.Ctx, r *core.Report) {
+			E4AlphaDivision(c, r)
 			E5Position(c, r)
 			E5ObjOffsets(c, r)
 			E5Reserved(c, r)
@@ -149,6 +156,8 @@ func init() {
 			E6DashPeriod(c, r)
 			E6JoinerSupport(c, r)
 			E6MemoIndependent(c, r)
+			E6MemoSharedState(c, r)
+			E11GramConsistency(c, r)
 			E6StyleCoverage(c, r, nil)
 			E6DashScaling(c, r)
 			E6WidthFrame(c, r)
@@ -190,6 +199,7 @@ func init() {
 			E12Units(c, r)
 			E12ColorSpaceOnce(c, r)
 			E6ImplicitClose(c, r)
+			E11StrokeToleranceView(c, r)
 			E6StyleCoverage(c, r, map[string]bool{"Rasterizer": true})
 			E6ScannerSites(c, r)
 			E6WindingMode(c, r)
@@ -223,6 +233,7 @@ func init() {
 		Run: func(c *core.Ctx, r *core.Report) {
 			E10Flatness(c, r)
 			E2PenReread(c, r)
+			E4StepProgress(c, r)
 		},
 	})
 }
@@ -294,6 +305,7 @@ func init() {
 			E11GlyphCursor(c, r)
 			E11ItemsCoverGlyphs(c, r)
 			E11HyphenGuard(c, r)
+			E11StaleAfterBreak(c, r)
 		},
 	})
 }
@@ -351,6 +363,7 @@ func init() {
 			E11SweepFlip(c, r)
 			E11RotationMerge(c, r)
 			E11OmittedTerm(c, r)
+			E11GramConsistency(c, r)
 		},
 	})
 }
